@@ -2,6 +2,7 @@ import Spake2Verif.Proofs.PropAuxB3
 import Spake2Verif.Proofs.UnknownGroup
 import Spake2Verif.Proofs.EdShapeTie
 import Spake2Verif.Spec.ToyCurves
+import Spake2Verif.Proofs.GroupShapeTie
 /-!
 # C13 — Group elements obey the group axioms through the element API, in every group
 
@@ -450,5 +451,28 @@ theorem class_layer_is_translated (c : Curve) :
     Ed25519.zeroPt c = EdShape.zero_pt c.Q :=
   ⟨EdShapeTie.smul_tie c, EdShapeTie.add_tie c, EdShapeTie.negate_tie c, fun h => EdShapeTie.dec_tie c h,
    EdShapeTie.zeroPt_tie c⟩
+
+/-! ### Tie A for the element API of the integer groups -/
+
+/-- `_Element.add / scalarmult / to_bytes / __eq__ / __ne__` with their dispatch into `IntegerGroup._add / _scalarmult /
+_element_to_bytes` (same-group assertions included), `Zero`, `Base` and `order()` ARE the translation
+`Gen/GroupShape.lean` of the current `groups.py`, for every `(p, q, g)` -/
+theorem int_element_api_is_translated (P : IntGroupParams) :
+    (∀ a b, ((intGroup P).add a b).map GroupShapeTie.toE =
+      GroupShape.IntShape.elem_add GroupShapeTie.modelPrims P.p P.q P.g (GroupShapeTie.toE a) (GroupShapeTie.toE b)) ∧
+    (∀ a i, ((intGroup P).smul a i).map GroupShapeTie.toE =
+      GroupShape.IntShape.elem_scalarmult GroupShapeTie.modelPrims P.p P.q P.g (GroupShapeTie.toE a) i) ∧
+    (∀ a, (intGroup P).enc a =
+      GroupShapeTie.orNil (GroupShape.IntShape.elem_to_bytes GroupShapeTie.modelPrims P.p P.q P.g (GroupShapeTie.toE a))) ∧
+    (∀ a b, GroupShape.IntShape.elem_eq GroupShapeTie.modelPrims P.p P.q P.g (GroupShapeTie.toE a) (GroupShapeTie.toE b) =
+        .ok ((intGroup P).eq a b) ∧
+      GroupShape.IntShape.elem_ne GroupShapeTie.modelPrims P.p P.q P.g (GroupShapeTie.toE a) (GroupShapeTie.toE b) =
+        .ok (!(intGroup P).eq a b)) ∧
+    GroupShapeTie.toE (intGroup P).zero = GroupShape.IntShape.zero P.p P.q P.g ∧
+    GroupShapeTie.toE (intGroup P).base = GroupShape.IntShape.base P.p P.q P.g ∧
+    GroupShape.IntShape.order GroupShapeTie.modelPrims P.p P.q P.g = .ok (intGroup P).order :=
+  ⟨GroupShapeTie.int_add_tie P, GroupShapeTie.int_smul_tie P, fun a => (GroupShapeTie.int_enc_tie P a).2,
+   GroupShapeTie.int_eq_tie P, (GroupShapeTie.int_consts_tie P).1, (GroupShapeTie.int_consts_tie P).2.1,
+   (GroupShapeTie.int_consts_tie P).2.2.1⟩
 
 end Spake2Verif.C13
